@@ -99,7 +99,8 @@ package iso7816
 //@ func ParseRApdu
 //@   props C17 C11 C12
 //@   ensures "err-iff-short": (err == nil) == (len(data) >= 2)
-//@   ensures "split": err == nil ==> rapdu != nil && fresh(rapdu)
+//@   ensures fresh(rapdu)
+//@   ensures "split": err == nil ==> rapdu != nil
 //@                && rapdu.Status == data[len(data)-2]*256 + data[len(data)-1]
 //@                && rapdu.Data === data[:len(data)-2] && fresh(rapdu.Data)
 //@   ensures err != nil ==> rapdu == nil
@@ -198,3 +199,158 @@ package iso7816
 //@   loop 1 invariant maxReadAmount <= old(nfc.maxLe) && nfc.maxLe <= old(nfc.maxLe)
 //@   loop 1 decreases nfc.readFileMaxChunks - chunkCnt
 //@   safety all
+
+// ---------------------------------------------------------------- C03 / C10: secure messaging (ICAO 9303-11 §9.8)
+//
+// validSM is the representation invariant established by NewSecureMessaging: ciphers match algorithm and
+// keys, the send sequence counter has the block size of the cipher.
+//@ spec func bsOf(alg int) int { alg == 2 ? 16 : 8 }
+//@ pred validSM(sm *SecureMessaging) { sm != nil && (sm.alg == 1 || sm.alg == 2)
+//@        && sm.encCipher != nil && sm.macCipher != nil
+//@        && calg(sm.encCipher) == sm.alg && calg(sm.macCipher) == sm.alg
+//@        && ckey(sm.encCipher) === canonKey(sm.alg, sm.ksEnc) && ckey(sm.macCipher) === canonKey(sm.alg, sm.ksMac)
+//@        && cbs(sm.encCipher) == bsOf(sm.alg) && cbs(sm.macCipher) == bsOf(sm.alg)
+//@        && len(sm.ssc) == bsOf(sm.alg) && (sm.alg == 1 ==> len(sm.ksMac) == 16)
+//@        && ref(sm.ssc) != 0 && ref(sm.ssc) != ref(sm.ksEnc) && ref(sm.ssc) != ref(sm.ksMac) }
+// MAC: ISO 9797-1 algorithm 3 (3DES suite) or AES-CMAC truncated to 8 octets, over padded data.
+//@ spec func smMacS(alg int, k seq, m seq) seq { alg == 1 ? mac3(k, m) : cmacF(2, k, m, 8) }
+// IV: zero block (3DES) or E(KSenc, SSC) (AES).
+//@ spec func smIV(alg int, kenc seq, ssc seq) seq { alg == 2 ? blockE(2, kenc, ssc) : zeros(8) }
+
+//@ func NewSecureMessaging
+//@   props C03 C10 C05
+//@   requires alg == 1 || alg == 2
+//@   requires alg == 1 ==> len(ksMac) == 16
+//@   ensures "valid-session": err == nil ==> validSM(sm) && beS(sm.ssc) == 0
+//@        && sm.ksEnc === ksEnc && sm.ksMac === ksMac && sm.alg == alg
+//@   ensures fresh(sm)
+//@   ensures err != nil ==> sm == nil
+//@   assigns nothing
+//@   safety all
+
+//@ func (sm *SecureMessaging) SetSSC
+//@   props C03 C10 C05
+//@   requires sm != nil
+//@   ensures "length-checked": (result == nil) == (len(ssc) == len(sm.ssc))
+//@   ensures "copied": result == nil ==> sm.ssc === old(ssc)
+//@   ensures len(sm.ssc) == old(len(sm.ssc)) && ref(sm.ssc) == old(ref(sm.ssc))
+//@   assigns content(sm.ssc)
+//@   safety all
+
+// Counter arithmetic with wrap-around at 256^len (the chip's counter has the same width).
+//@ func (sm *SecureMessaging) sscIncrement
+//@   props C03 C10
+//@   requires sm != nil
+//@   ensures "plus-one": old(beS(sm.ssc)) + 1 < pow256(len(sm.ssc)) ==> beS(sm.ssc) == old(beS(sm.ssc)) + 1
+//@   ensures "wraps-to-zero": old(beS(sm.ssc)) + 1 >= pow256(len(sm.ssc)) ==> beS(sm.ssc) == 0
+//@   ensures len(sm.ssc) == old(len(sm.ssc))
+//@   ensures "own-buffer": old(len(sm.ssc)) > 0 ==> ref(sm.ssc) != 0 && (ref(sm.ssc) == old(ref(sm.ssc)) || fresh(sm.ssc))
+//@   assigns sm.ssc, content(sm.ssc)
+//@   safety all
+
+//@ func (sm *SecureMessaging) sscDecrement
+//@   props C03 C10
+//@   requires sm != nil
+//@   ensures "minus-one": old(beS(sm.ssc)) > 0 ==> beS(sm.ssc) == old(beS(sm.ssc)) - 1
+//@   ensures "wraps-to-max": old(beS(sm.ssc)) == 0 ==> beS(sm.ssc) == pow256(len(sm.ssc)) - 1
+//@   ensures len(sm.ssc) == old(len(sm.ssc)) && ref(sm.ssc) == old(ref(sm.ssc))
+//@   loop 1 invariant sm != nil && len(sm.ssc) == old(len(sm.ssc)) && ref(sm.ssc) == old(ref(sm.ssc))
+//@   loop 1 invariant forall k :: 0 <= k && k <= rangeindex ==> sm.ssc[k] == 255
+//@   assigns sm.ssc, content(sm.ssc)
+//@   safety all
+
+//@ func (sm *SecureMessaging) cbcCrypt
+//@   props C03 C10
+//@   requires validSM(sm)
+//@   ensures "err-iff-misaligned": (result1 == nil) == (len(data) % bsOf(sm.alg) == 0)
+//@   ensures "cbc-encrypt": result1 == nil && encrypt ==> result0 === cbcE(sm.alg, canonKey(sm.alg, sm.ksEnc), smIV(sm.alg, canonKey(sm.alg, sm.ksEnc), sm.ssc), data)
+//@   ensures "cbc-decrypt": result1 == nil && !encrypt ==> result0 === cbcD(sm.alg, canonKey(sm.alg, sm.ksEnc), smIV(sm.alg, canonKey(sm.alg, sm.ksEnc), sm.ssc), data)
+//@   ensures result1 == nil ==> len(result0) == len(data)
+//@   ensures fresh(result0)
+//@   assigns nothing
+//@   safety all
+
+//@ func (sm *SecureMessaging) generateMac
+//@   props C03 C10
+//@   requires validSM(sm)
+//@   ensures "session-mac": err == nil ==> mac === smMacS(sm.alg, canonKey(sm.alg, sm.ksMac), data) && len(mac) == 8
+//@   ensures "aes-never-fails": sm.alg == 2 ==> err == nil
+//@   ensures "tdes-fails-iff-misaligned": sm.alg == 1 ==> ((err == nil) == (len(data) >= 8 && len(data) % 8 == 0))
+//@   ensures fresh(mac)
+//@   assigns nothing
+//@   safety all
+
+//@ func (sm *SecureMessaging) cryptoPad
+//@   props C03 C10
+//@   requires validSM(sm)
+//@   ensures result === pad2S(data, bsOf(sm.alg))
+//@   ensures fresh(result)
+//@   assigns nothing
+//@   safety all
+
+//@ func (sm *SecureMessaging) cryptoUnpad
+//@   props C03 C10
+//@   ensures "method-2-inverse": result1 == nil ==> len(result0) < len(data) && result0 === data[:len(result0)] && data[len(result0)] == 128
+//@        && (forall i :: len(result0) < i && i < len(data) ==> data[i] == 0)
+//@   assigns nothing
+//@   safety all
+
+//@ func generateMacDataForSmRApduTlv
+//@   props C03
+//@   requires smRApduTlv != nil
+//@   ensures "mac-input": result === cat(ssc, doEnc(smRApduTlv.src, 133), doEnc(smRApduTlv.src, 135), doEnc(smRApduTlv.src, 153))
+//@   ensures fresh(result)
+//@   assigns nothing
+//@   safety all
+
+//@ func (sm *SecureMessaging) decodeVerifyMAC
+//@   props C03
+//@   requires validSM(sm) && tlv != nil
+//@   ensures "mac-verified": result == nil ==> doVal(tlv.src, 142) === smMacS(sm.alg, canonKey(sm.alg, sm.ksMac),
+//@        pad2S(cat(sm.ssc, doEnc(tlv.src, 133), doEnc(tlv.src, 135), doEnc(tlv.src, 153)), bsOf(sm.alg)))
+//@   assigns nothing
+//@   safety all
+
+//@ func (sm *SecureMessaging) decodeSmRApduData
+//@   props C03
+//@   requires validSM(sm)
+//@   ensures "indicator-decrypt-unpad": err == nil ==> len(encodedData) >= 1 && encodedData[0] == 1
+//@        && len(out) < len(encodedData) - 1
+//@        && (forall i :: 0 <= i && i < len(out) ==> out[i] == cbcD(sm.alg, canonKey(sm.alg, sm.ksEnc), smIV(sm.alg, canonKey(sm.alg, sm.ksEnc), sm.ssc), encodedData[1:])[i])
+//@        && cbcD(sm.alg, canonKey(sm.alg, sm.ksEnc), smIV(sm.alg, canonKey(sm.alg, sm.ksEnc), sm.ssc), encodedData[1:])[len(out)] == 128
+//@   assigns nothing
+//@   safety all
+
+// Top level (property C03): a response is delivered only if its MAC, computed with the session MAC key over the
+// incremented counter and the received data objects, equals DO'8E'; DO'99' is two octets and equals the outer
+// status; data is the unpadded decryption of DO'85'/'87' (indicator 01). The spec functions doEnc/doVal/doPresent
+// read the data objects of the received bytes (all but the two status octets).
+//@ func (sm *SecureMessaging) Decode
+//@   props C03 C10 C11
+//@   requires validSM(sm)
+//@   ensures "counter-advances-on-protected-response": len(rApduBytes) > 2 ==>
+//@        (old(beS(sm.ssc)) + 1 < pow256(len(sm.ssc)) ==> beS(sm.ssc) == old(beS(sm.ssc)) + 1) && (old(beS(sm.ssc)) + 1 >= pow256(len(sm.ssc)) ==> beS(sm.ssc) == 0)
+//@   ensures "counter-steps-back-on-naked-response": len(rApduBytes) == 2 ==> err != nil &&
+//@        (old(beS(sm.ssc)) > 0 ==> beS(sm.ssc) == old(beS(sm.ssc)) - 1) && (old(beS(sm.ssc)) == 0 ==> beS(sm.ssc) == pow256(len(sm.ssc)) - 1)
+//@   ensures "authenticated": err == nil ==> len(rApduBytes) > 2 && doPresent(old(rApduBytes)[:len(rApduBytes) - 2], 142)
+//@        && doVal(old(rApduBytes)[:len(rApduBytes) - 2], 142) === smMacS(sm.alg, canonKey(sm.alg, sm.ksMac),
+//@             pad2S(cat(sm.ssc, doEnc(old(rApduBytes)[:len(rApduBytes) - 2], 133), doEnc(old(rApduBytes)[:len(rApduBytes) - 2], 135), doEnc(old(rApduBytes)[:len(rApduBytes) - 2], 153)), bsOf(sm.alg)))
+//@   ensures "protected-status-equals-outer-status": err == nil ==> len(doVal(old(rApduBytes)[:len(rApduBytes) - 2], 153)) == 2
+//@        && rApdu != nil && rApdu.Status == old(rApduBytes)[len(rApduBytes) - 2] * 256 + old(rApduBytes)[len(rApduBytes) - 1]
+//@        && rApdu.Status == doVal(old(rApduBytes)[:len(rApduBytes) - 2], 153)[0] * 256 + doVal(old(rApduBytes)[:len(rApduBytes) - 2], 153)[1]
+//@   ensures "no-data-object-no-data": err == nil && !doPresent(old(rApduBytes)[:len(rApduBytes) - 2], 133) && !doPresent(old(rApduBytes)[:len(rApduBytes) - 2], 135) ==> len(rApdu.Data) == 0
+//@   ensures err != nil ==> rApdu == nil
+//@   ensures len(sm.ssc) == old(len(sm.ssc))
+//@   assigns sm.ssc, content(sm.ssc)
+//@   safety all
+
+// Diagnostic string renderings (only used as log arguments): no effect on state; their text is not specified.
+//@ func (sm SecureMessaging) String
+//@   trusted
+//@   pure
+//@ func (apdu *RApdu) String
+//@   trusted
+//@   pure
+//@ func (cApdu CApdu) String
+//@   trusted
+//@   pure
